@@ -69,8 +69,10 @@ class SystemW(Inference):
         # self._translation_start()
         tseitin_transformation = TseitinTransformation(self.epistemic_state)
         translated_query = tseitin_transformation.query_to_cnf(query)
-        self.epistemic_state["v_cnf_dict"][0] = translated_query[0]
-        self.epistemic_state["f_cnf_dict"][0] = translated_query[1]
+        # the query has slots of its own: the per-conditional CNF dictionaries are keyed by
+        # the keys of the belief base, any of which may be 0
+        self.epistemic_state["query_v_cnf"] = translated_query[0]
+        self.epistemic_state["query_f_cnf"] = translated_query[1]
         wcnf = WCNF()
         if not weakly:
             result = self._rec_inference(
@@ -84,7 +86,7 @@ class SystemW(Inference):
                 # all conditionals sit in the infinity layer: no feasible world is preferred to
                 # another, so the query holds only if its falsification has no feasible model
                 wcnf_f = wcnf.copy()
-                [wcnf_f.append(c) for c in self.epistemic_state["f_cnf_dict"][0]]
+                [wcnf_f.append(c) for c in self.epistemic_state["query_f_cnf"]]
                 optimizer = create_optimizer(self.epistemic_state)
                 return not optimizer.minimal_correction_subsets(
                     wcnf_f,
@@ -120,8 +122,8 @@ class SystemW(Inference):
             softc = self.epistemic_state["nf_cnf_dict"][index]
             [wcnf.append(s, weight=1) for s in softc]
         wcnf_prime = wcnf.copy()
-        [wcnf.append(c) for c in self.epistemic_state["v_cnf_dict"][0]]
-        [wcnf_prime.append(c) for c in self.epistemic_state["f_cnf_dict"][0]]
+        [wcnf.append(c) for c in self.epistemic_state["query_v_cnf"]]
+        [wcnf_prime.append(c) for c in self.epistemic_state["query_f_cnf"]]
         optimizer = create_optimizer(self.epistemic_state)
         ignore = [
             item
